@@ -1468,6 +1468,10 @@ class VisGroup:
         group_mapping[self.id] = newgroup.id
         return newgroup
 
+    def __copy__(self) -> 'VisGroup':
+        """copy.copy() makes a real duplicate with an ID of its own, not a second visgroup with our ID."""
+        return self.copy()
+
 
 # Workaround MyPy not evaluating generics on converters.
 if TYPE_CHECKING:
@@ -1535,6 +1539,14 @@ class Solid:
             self.is_cordon,
             self.editor_color.copy(),
         )
+
+    def __copy__(self) -> 'Solid':
+        """copy.copy() makes a real duplicate with an ID of its own.
+
+        The default shallow copy would be a second brush holding the same ID, and would
+        release that ID when it is destroyed while the original still uses it.
+        """
+        return self.copy()
 
     @classmethod
     def parse(cls, vmf_file: VMF, tree: Keyvalues, hidden: bool = False) -> 'Solid':
@@ -2231,6 +2243,14 @@ class Side:
             new_side.strata_points = [point.copy() for point in self.strata_points]
         return new_side
 
+    def __copy__(self) -> 'Side':
+        """copy.copy() makes a real duplicate with an ID of its own.
+
+        The default shallow copy would be a second face holding the same ID, and would
+        release that ID when it is destroyed while the original still uses it.
+        """
+        return self.copy()
+
     # noinspection PyProtectedMember
     def export(self, buffer: IO[str], ind: str = '', disp_multiblend: bool = True) -> None:
         """Generate the strings required to define this side in a VMF.
@@ -2667,6 +2687,14 @@ class Entity(MutableMapping[str, str]):
         # __init__() substitutes a default derived from the new ID for a blank position.
         new_ent.logical_pos = self.logical_pos
         return new_ent
+
+    def __copy__(self) -> 'Entity':
+        """copy.copy() makes a real duplicate with an ID of its own.
+
+        The default shallow copy would be a second entity holding the same ID, and would
+        release that ID when it is destroyed while the original still uses it.
+        """
+        return self.copy()
 
     @staticmethod
     def parse(
@@ -3552,6 +3580,10 @@ class EntityGroup:
             self.auto_shown,
             self.color.copy(),
         )
+
+    def __copy__(self) -> 'EntityGroup':
+        """copy.copy() makes a real duplicate with an ID of its own, not a second group with our ID."""
+        return self.copy()
 
     def export(self, buffer: IO[str], ind: str) -> None:
         """Write out a group into a VMF file."""
